@@ -4,6 +4,7 @@ package main
 
 import (
 	"github.com/gcash/bchd/chaincfg/chainhash"
+	"github.com/gcash/bchd/wire"
 	"github.com/gcash/bchutil"
 	"github.com/gcash/bchutil/coinset"
 	"sync"
@@ -11,6 +12,7 @@ import (
 
 func init() {
 	ops["Select"] = opSelect
+	ops["SimpleCoin"] = opSimpleCoin
 	for _, op := range []string{"CsNew", "CsPush", "CsPop", "CsShift", "CsObserve", "CsFinal"} {
 		ops[op] = opCoinSet
 	}
@@ -41,6 +43,34 @@ func mkCoin(m map[string]interface{}) *tCoin {
 	}
 	c.hash = chainhash.Hash{byte(txk), byte(txk >> 8), 0xC0}
 	return c
+}
+
+// opSimpleCoin: the library's own Coin implementation (an output of a wrapped transaction with a confirmation count):
+// what it reports is what the transaction says, and it selects like any other coin.
+func opSimpleCoin(_ *HState, a Event) Event {
+	vals := gList(a, "values")
+	tx := wire.NewMsgTx(1)
+	for i, v := range vals {
+		tx.AddTxOut(wire.NewTxOut(gInt64(Event{"x": v}, "x"), []byte{0x51, byte(i)}, wire.TokenData{}))
+	}
+	th := tx.TxHash()
+	e := with(a, "fresh", ints(th[:]), "coins", []interface{}{})
+	p, msg := guard(func() {
+		wtx := bchutil.NewTx(tx)
+		var obs []interface{}
+		var offered []coinset.Coin
+		for i := range vals {
+			sc := &coinset.SimpleCoin{Tx: wtx, TxIndex: uint32(i), TxNumConfs: gInt64(a, "confs") + int64(i)}
+			offered = append(offered, sc)
+			h := sc.Hash()
+			obs = append(obs, map[string]interface{}{"hash": ints(h[:]), "index": int(sc.Index()), "value": int(sc.Value()), "confs": int(sc.NumConfs()),
+				"va": int(sc.ValueAge()), "script": ints(sc.PkScript())})
+		}
+		e["coins"] = obs
+		cs := coinset.NewCoinSet(offered)
+		e["total"], e["totalage"], e["num"] = int(cs.TotalValue()), int(cs.TotalValueAge()), cs.Num()
+	})
+	return panicField(e, p, msg)
 }
 
 func coinList(a Event, k string) []coinset.Coin {
@@ -183,6 +213,14 @@ func coinOfTx(id, txk, index int, v, cf int64) map[string]interface{} {
 
 func runC19(c *Ctx) {
 	c.DeferredOp = "CsFinal"
+	for k := 0; k < c.Pick(30, 300); k++ { // the library's own coin type
+		n := 1 + c.Rng.Intn(5)
+		var vals []int
+		for i := 0; i < n; i++ {
+			vals = append(vals, []int{0, 1, 5, 1000, 20000}[c.Rng.Intn(5)])
+		}
+		c.Call(Event{"op": "SimpleCoin", "values": vals, "confs": c.Rng.Intn(4)})
+	}
 	c.Conc = true // stateless calls are also replayed from several goroutines at once
 	r := c.Rng
 	selectors := []string{"MinIndex", "MinNumber", "MaxValueAge", "MinPriority"}
